@@ -78,7 +78,7 @@ for _c in ("bls12_381", "bn128"):
         _t = f"{_v}{_c}"
         _mk(f"consts.{_t}", [f"{_t}.constants", f"{_t}.generators", f"{_t}.generators-on-curve",
                               f"{_t}.generators-order", f"{_t}.identity-constants", f"{_t}.char"], ("C07",))
-_mk("consts.derivations", ["bls12_381.derivation", "bn128.derivation"], ("C07", "C17"), lean=L_GROUP)
+_mk("consts.derivations", ["bls12_381.derivation", "bn128.derivation", "twist.embedding"], ("C07", "C17"), lean=L_GROUP + [("GroupLaw.lean", "scalePt_specAdd", "(x,y) -> (x c^2, y c^3) commutes with the group law"), ("GroupLaw.lean", "scalePt_injective", "and is injective")])
 _mk("consts.pairing-loops", ["pairing.loop-constants"], ("C05", "C12", "C07"))
 _mk("consts.secp", ["secp.constants", "secp.generator", "secp.no-y0-point", "secp.p-3-mod-4", "secp.hasse"],
     ("C18", "C19", "C06"), lean=L_GROUP[:7])
